@@ -1029,9 +1029,18 @@ class Watcher(object):
                     self.spawn_process()
                     yield tornado_sleep(self.warmup_delay)
             else:
+                old_pids = set(self.processes)
                 for i in range(self.numprocesses):
                     self.spawn_process()
                 yield self.manage_processes()
+                # when a replacement died meanwhile the surplus was smaller
+                # than the old generation: no old process may survive
+                leftovers = [p for pid, p in list(self.processes.items())
+                             if pid in old_pids]
+                removes = yield [self.kill_process(p) for p in leftovers]
+                for i, process in enumerate(leftovers):
+                    if removes[i]:
+                        self.processes.pop(process.pid, None)
         self.notify_event("reload", {"time": time.time()})
         logger.info('%s reloaded', self.name)
 
